@@ -64,17 +64,34 @@ def check(case):
                 except Exception as ex:
                     probs.append(("divisions-raise", f"{where} {label}: {type(ex).__name__}: {ex}"))
                     continue
-                if npart != len(parts):
-                    probs.append(("npartitions-mismatch", f"{where} {label}: reports npartitions={npart} but {len(parts)} partitions are computed"))
-                probs += structure.check_divisions(divs, parts, f"{where} {label}")
+                cmp_parts = parts
+                if label == "plan" and npart != len(parts):
+                    # some expressions (Repartition by count) define their divisions as those of their *optimized* form: the reported
+                    # structure then describes what the remaining optimizer stages compute, not the direct lowering of this node
+                    try:
+                        alt = plans.execute(plans.optimize_until(se, "fused"))[1]
+                        if len(alt) == npart:
+                            cmp_parts = alt
+                            classes.append("structure_of_optimized_form")
+                    except Exception:
+                        pass
+                if npart != len(cmp_parts):
+                    probs.append(("npartitions-mismatch", f"{where} {label}: reports npartitions={npart} but {len(cmp_parts)} partitions are computed"))
+                probs += structure.check_divisions(divs, cmp_parts, f"{where} {label}")
                 if stage != "logical" and divs and divs[0] is not None and len(parts) >= 2:
                     nts.append(f"{h}:{vid}")
             if stage == "logical" and flags[vid].defined:
                 # collection-level reports (skipped when several results satisfy the query:
                 # len() is answered by the optimized plan, the partitions here by the un-optimized one)
                 try:
-                    if coll.npartitions != len(parts) or len(coll.divisions) != len(parts) + 1:
-                        probs.append(("npartitions-mismatch", f"{where}: collection reports npartitions={coll.npartitions}, {len(coll.divisions)} divisions; computed {len(parts)} partitions"))
+                    nref = len(parts)
+                    if coll.npartitions != nref:
+                        try:
+                            nref = len(plans.execute(coll.optimize().expr)[1])  # what compute() / to_delayed() run
+                        except Exception:
+                            pass
+                    if coll.npartitions != nref or len(coll.divisions) != nref + 1:
+                        probs.append(("npartitions-mismatch", f"{where}: collection reports npartitions={coll.npartitions}, {len(coll.divisions)} divisions; computed {nref} partitions"))
                 except Exception as ex:
                     probs.append(("divisions-raise", f"{where}: {type(ex).__name__}: {ex}"))
                 kind = interp.O.kind_of(res) if not hasattr(res, "ndim") or res.ndim else "scalar"
